@@ -206,8 +206,14 @@ def freeze(x):
     return x
 
 
+class ClockTime(tuple):
+    """time.Time value produced by the clock stub: the real representation (tuple content) plus the
+    nanoseconds since the harness reference date it stands for"""
+    ns = None
+
+
 def thaw(x):
-    if type(x) is tuple:
+    if type(x) is tuple or type(x) is ClockTime:
         return [thaw(e) for e in x]
     return x
 
